@@ -82,3 +82,12 @@ func init() {
 	Link("C01", "C06", "(C06.D2) a stored unsigned datum is never replaced by conflicting data.", []string{"D2"})
 	Link("C01", "C10", "(C10.H1/H3) only verified partial signatures enter the node.", []string{"H1", "H3"})
 }
+
+func init() {
+	// agreement and validity assume that every justification belongs to the same consensus instance: core/qbft never
+	// looks at Msg.Instance() of a justification; the wrapper's duty-equality check (C05-A1) is what binds them.
+	Link("C02", "C05", "(C05.A1) every message and every justification handed to the instance passed signature, gater, limits and duty-equality checks (a COMMIT quorum of another duty cannot be replayed).", []string{"A1"},
+		Mutant{ID: "C02-link-justification-duty-type-only", File: "core/consensus/qbft/qbft.go", Expect: "C05.A1",
+			Old: "\t\tif justDuty != duty {", New: "\t\tif justDuty.Type != duty.Type {"})
+	Link("C03", "C05", "(C05.A1) every justification belongs to the duty of the message that carries it.", []string{"A1"})
+}
